@@ -32,7 +32,8 @@ type C08Case struct {
 var kwSpaces = []string{" ", "\t", "\n", "  ", " \n ", "\r\n"}
 
 var c08PosNames = []string{"print", "if", "elseif", "set", "for-seq", "include-with", "filter-arg", "function-arg", "macro-arg", "array-elem", "hash-value",
-	"for-seq-default-of-null", "for-seq-default-of-undefined", "for-seq-conditional", "for-seq-filtered-list"}
+	"for-seq-default-of-null", "for-seq-default-of-undefined", "for-seq-conditional", "for-seq-filtered-list",
+	"filter-arg-evaluated-twice-in-a-loop", "include-with-only", "include-with-next-to-pairs-named-like-variables"}
 
 // c08Wrap builds the observer templates around the expression text x (of type typ). The
 // model side of each position is a fixed function of the expression's value.
@@ -87,6 +88,15 @@ func c08Wrap0(pos int, x string) map[string]string {
 		return map[string]string{"main": "{% for i in t ? [" + x + "] : [] %}<{{ i }}>{% endfor %}"}
 	case 14:
 		return map[string]string{"main": "{% for i in [" + x + "]|merge([]) %}<{{ i }}>{% else %}EMPTY{% endfor %}"}
+	case 15:
+		// the same filter-argument node evaluated twice with a different loop variable
+		return map[string]string{"main": "{% for c08i in [1, 2] %}<{{ nul|default((" + x + ") ~ c08i) }}>{% endfor %}"}
+	case 16:
+		// with-expressions belong to the including template, also under `only`
+		return map[string]string{"main": "{% include 'inc' with {'v': " + x + "} only %}", "inc": "({{ v }})"}
+	case 17:
+		// pairs named like variables the expression may read must not be visible to it
+		return map[string]string{"main": "{% include 'inc' with {'a': 'A', 'b': 'B', 's': 'S', 'v': " + x + ", 'xs': 'X', 'm': 'M', 'c': 'C'} %}", "inc": "({{ v }})"}
 	}
 	panic("pos")
 }
@@ -107,8 +117,10 @@ func c08Expect(pos int, v interface{}) (string, error) {
 		return "[" + s + "]", nil
 	case 4, 11, 12, 13, 14:
 		return "<" + s + ">", nil
-	case 5:
+	case 5, 16, 17:
 		return "(" + s + ")", nil
+	case 15:
+		return "<" + s + "1><" + s + "2>", nil
 	case 6:
 		// default() replaces empty values: the observer needs a non-empty value
 		if !truthy(v) {
@@ -171,8 +183,13 @@ func checkC08(c C08Case) error {
 		if r.Out != want {
 			return fmt.Errorf("position %s, %s spelling %s: engine %s, model %s (value %s)", c08PosNames[c.Pos], spelling, q(tm["main"]), q(r.Out), q(want), showModel(v))
 		}
-		if !eqLogs(sp.Log, m.SpyLog) {
-			return fmt.Errorf("position %s, %s spelling %s: spy invocations %v, model %v", c08PosNames[c.Pos], spelling, q(tm["main"]), sp.Log, m.SpyLog)
+		wantLog := m.SpyLog
+		if c.Pos == 15 {
+			// this position evaluates the expression once per loop iteration
+			wantLog = append(append([]string{}, m.SpyLog...), m.SpyLog...)
+		}
+		if !eqLogs(sp.Log, wantLog) {
+			return fmt.Errorf("position %s, %s spelling %s: spy invocations %v, model %v", c08PosNames[c.Pos], spelling, q(tm["main"]), sp.Log, wantLog)
 		}
 	}
 	return nil
@@ -229,7 +246,7 @@ func c08Classify(c C08Case) (bool, []string) {
 	return nt, classes
 }
 
-const c08Rule = "type-directed random expression trees (depth<=5) over ints, strings, booleans, lists, maps, attribute/index access, unary, all binary operators of the table, ?:, filters, functions and spies, each printed minimally and fully parenthesised with random inter-token whitespace and placed in one of 15 syntactic positions (the for sequence also as a filter chain on a null / undefined base, a conditional and a filtered list); containers of `in` include a 60-element list and range(-10, 49); variable names include pairs that collide under common string hashes (Aa/BB, x1/wP, AO/B0); one case in five runs with the engine in debug mode; non-trivial = >=2 binary operators of different precedence, or a unary/conditional operator next to a binary one, or a non-print position; distinct by (context, tree, position)"
+const c08Rule = "type-directed random expression trees (depth<=5) over ints, strings, booleans, lists, maps, attribute/index access, unary, all binary operators of the table, ?:, filters, functions and spies, each printed minimally and fully parenthesised with random inter-token whitespace and placed in one of 18 syntactic positions (the for sequence also as a filter chain on a null / undefined base, a conditional and a filtered list); containers of `in` include a 60-element list and range(-10, 49); variable names include pairs that collide under common string hashes (Aa/BB, x1/wP, AO/B0); one case in five runs with the engine in debug mode; non-trivial = >=2 binary operators of different precedence, or a unary/conditional operator next to a binary one, or a non-print position; distinct by (context, tree, position)"
 
 func TestC08Expr(t *testing.T) {
 	r := NewRec(t, "C08", c08Rule)
